@@ -619,7 +619,7 @@ impl Family for Generics {
         &["C07", "C01", "C02", "C03", "C04"]
     }
     fn rule(&self) -> &'static str {
-        "32 generic templates (a two-parameter generic struct whose fields are read inside generic code at an instance with the function's parameters in the other order / shifted; a generic function calling itself with its type parameters swapped; a type parameter of a function / of a method / of an impl block that the signature never mentions (rejected, or valid); a method with a type parameter of its own inside a generic impl, at two instantiations for one receiver type; 8 where the type parameter occurs in the signature only underneath Vec / Ref / array / tuple / Opt / a generic struct / Vec[Ref[.]] / Ref[Vec[.]], each instantiated at two types; a type parameter occurring only in the result type at two instantiations agreeing on the argument-bound parameter, zero-argument generic fixed by the expected type, the same generic at (A,B) and (B,A), Vec/Ref/array element generics, id, pair, apply, Opt unwrap, generic struct with inherent method, trait dispatch through a bound at two impl types, generic calling generic at (T,T), recursive List[T], two bounds, two instances in one program, generic fn as a value, nested instantiation) x 13 type arguments {int32,bool,string,unit,(int32,bool),[int32;2],Vec[int32],Ref[int32],(int32)->int32,S,E2,Opt[int32],Opt[Opt[bool]]} (all ordered pairs for two-parameter templates in thorough, a diagonal band in quick); oracle: output = type-passing reference semantics, emitted Go valid (no type-parameter residue can survive the Go checker); plus 6 polymorphic-recursion programs (a generic function reaching itself at a doubled tuple / Vec / Opt / pair-with-int type, through a second function, through a method) which must terminate, accepted or rejected, and 2 finite chains of 12 and 40 generic functions each calling the next at a larger type, which must compile and print their length; 4 generic types that mention themselves at a larger instance (enum, struct, through a second type; declared and never used: must be accepted) which must terminate and, if accepted, be valid Go printing the value, 2 regular recursive types (List[T]; one with its parameters permuted) which must be accepted, and 3 associated functions of a generic impl (the impl's parameter unmentioned: rejected or valid Go; in the argument; in the result only: accepted). non-trivial = instantiations at non-scalar types; distinct = distinct source text"
+        "32 generic templates (a two-parameter generic struct whose fields are read inside generic code at an instance with the function's parameters in the other order / shifted; a generic function calling itself with its type parameters swapped; a type parameter of a function / of a method / of an impl block that the signature never mentions (rejected, or valid); a method with a type parameter of its own inside a generic impl, at two instantiations for one receiver type; 8 where the type parameter occurs in the signature only underneath Vec / Ref / array / tuple / Opt / a generic struct / Vec[Ref[.]] / Ref[Vec[.]], each instantiated at two types; a type parameter occurring only in the result type at two instantiations agreeing on the argument-bound parameter, zero-argument generic fixed by the expected type, the same generic at (A,B) and (B,A), Vec/Ref/array element generics, id, pair, apply, Opt unwrap, generic struct with inherent method, trait dispatch through a bound at two impl types, generic calling generic at (T,T), recursive List[T], two bounds, two instances in one program, generic fn as a value, nested instantiation) x 13 type arguments {int32,bool,string,unit,(int32,bool),[int32;2],Vec[int32],Ref[int32],(int32)->int32,S,E2,Opt[int32],Opt[Opt[bool]]} (all ordered pairs for two-parameter templates in thorough, a diagonal band in quick); oracle: output = type-passing reference semantics, emitted Go valid (no type-parameter residue can survive the Go checker); plus 9 polymorphic-recursion programs (a generic function reaching itself at a doubled tuple / Vec / Opt / pair-with-int type, through a second function, through a method, and by two or three recursive calls at different larger types, so that the instances multiply long before any type is large) which must terminate, accepted or rejected, and 2 finite chains of 12 and 40 generic functions each calling the next at a larger type, which must compile and print their length; 4 generic types that mention themselves at a larger instance (enum, struct, through a second type; declared and never used: must be accepted) which must terminate and, if accepted, be valid Go printing the value, 2 regular recursive types (List[T]; one with its parameters permuted) which must be accepted, and 3 associated functions of a generic impl (the impl's parameter unmentioned: rejected or valid Go; in the argument; in the result only: accepted). non-trivial = instantiations at non-scalar types; distinct = distinct source text"
     }
     fn cases(&self, tier: Tier) -> Box<dyn Iterator<Item = Value> + '_> {
         let mut v = Vec::new();
@@ -641,7 +641,7 @@ impl Family for Generics {
         // specialisation must terminate (or the program be rejected): every way a generic function can
         // reach itself at a larger type; and deep but finite instantiation chains must still compile
         for k in [
-            "tuple-doubling", "vec-wrapping", "opt-wrapping", "pair-with-int", "mutual", "through-method", "finite-depth-12", "finite-depth-40", "type-growing-enum", "type-growing-struct", "type-growing-mutual",
+            "tuple-doubling", "vec-wrapping", "opt-wrapping", "pair-with-int", "mutual", "through-method", "branching-two-ways", "branching-through-two-functions", "branching-three-ways-slow-growth", "finite-depth-12", "finite-depth-40", "type-growing-enum", "type-growing-struct", "type-growing-mutual",
             "type-growing-unused", "type-regular-recursion", "type-regular-permuting", "associated-fn-impl-param-unmentioned", "associated-fn-impl-param-in-result", "associated-fn-impl-param-in-result-only",
         ] {
             v.push(json!({"template": "polymorphic-recursion", "a": k, "b": "int32"}));
@@ -677,6 +677,11 @@ impl Family for Generics {
                 "through-method" => ("struct Bx[T] { v: T }\nimpl[T] Bx[T] { fn grow(self: Bx[T], n: int32) -> int32 { if n < 1 { 0 } else { let b: Bx[(T, T)] = Bx { v: (self.v, self.v) }; 1 + b.grow(n - 1) } } }\n\nfn main() {\n    let b: Bx[int32] = Bx { v: 1 };\n    string_println(int32_to_string(b.grow(3)))\n}\n".into(), None, false),
                 "finite-depth-12" => (finite(12), Some("12\n".into()), true),
                 "finite-depth-40" => (finite(40), Some("40\n".into()), true),
+                // two recursive calls at two larger types: the number of instances doubles with every level,
+                // long before any of the types is large
+                "branching-two-ways" => ("fn f[T](x: T, n: int32) -> int32 {\n    if n < 1 { 0 } else { f((x, 1), n - 1) + f((1, x), n - 1) }\n}\n\nfn main() {\n    string_println(int32_to_string(f(1, 3)))\n}\n".into(), None, false),
+                "branching-through-two-functions" => ("fn f[T](x: T, n: int32) -> int32 {\n    if n < 1 { 0 } else { g((x, true), n - 1) + g((false, x), n - 1) }\n}\nfn g[U](y: U, n: int32) -> int32 { f(y, n) + f((y, y), n) }\n\nfn main() {\n    string_println(int32_to_string(f(1, 3)))\n}\n".into(), None, false),
+                "branching-three-ways-slow-growth" => ("struct Bx[T] { v: T }\nfn f[T](x: T, n: int32) -> int32 {\n    if n < 1 { 0 } else { let a: Vec[T] = vec_new(); f(a, n - 1) + f(ref(x), n - 1) + f(Bx { v: x }, n - 1) }\n}\n\nfn main() {\n    string_println(int32_to_string(f(1, 3)))\n}\n".into(), None, false),
                 // types that mention themselves at a larger instance: the set of instances is infinite
                 "type-growing-enum" => ("struct Bx[T] { v: T }\nenum Nest[T] { Leaf(T), Node(Nest[Bx[T]]) }\nfn main() {\n    let n: Nest[int32] = Leaf(1);\n    string_println(match n { Leaf(k) => int32_to_string(k), Node(m) => \"node\" })\n}\n".into(), Some("1\n".into()), false),
                 "type-growing-struct" => ("enum Opt[T] { Non, Som(T) }\nstruct Grow[T] { v: T, next: Opt[Grow[(T, T)]] }\nfn main() {\n    let g: Grow[int32] = Grow { v: 1, next: Non };\n    string_println(int32_to_string(g.v))\n}\n".into(), Some("1\n".into()), false),
